@@ -151,13 +151,16 @@ def run(ctx):
                 # of its arguments only, whatever the object did before
                 ops = {}
                 g2 = st.wrap([rng.randint(-4, 4) for _ in range(st.nb)])
-                seq = ((0.5, 1.0, g), (-0.75, 1.0, g), (0.5, 1.0, g2), (-0.5, 1.0, g), (1.0, 0.5, g2)) if not quick else ((0.5, 1.0, g), (-0.75, 1.0, g), (0.75, 1.0, g2))
+                seq = ((0.5, 1.0, g), (0.5, 1.0, g2), (-0.75, 1.0, g), (0.5, 1.0, g2), (-0.5, 1.0, g), (1.0, 0.5, g2)) if not quick else ((0.5, 1.0, g), (0.5, 1.0, g2), (-0.75, 1.0, g), (-0.75, 1.0, g2))
                 for dt, B0p, gg in seq:
                     if B0p not in ops:
                         ops[B0p] = mk(B0p / ht)
                     op = ops[B0p]
                     gp = [st.spline(gg, x, 1) for x in xt]
-                    phi = spl.Spline2D(bt, br)
+                    # the potential spline object is REUSED and refreshed in place (as gridStep does with its per-plane splines)
+                    if "phi" not in ops:
+                        ops["phi"] = spl.Spline2D(bt, br)
+                    phi = ops["phi"]
                     phi.coeffs[:] = np.array([[float(gg[a])] * sr.nb for a in range(st.nb)])
                     f = f0.copy()
                     done = capped(lambda: op.step(f, dt, phi, vval))
